@@ -592,10 +592,13 @@ func compare(r *core.Run, p *prepared, res *nodeResult, st *stats) {
 		byName[res.Bundles[i].Name] = &res.Bundles[i]
 	}
 	entryKind := g.Kinds[0]
-	ambStarCjs := false
+	ambStarCjs, cycDyn := false, false
 	for _, f := range g.Feat {
 		if f == "amb:star>cjs" {
 			ambStarCjs = true
+		}
+		if f == "cyc:esmdyn" {
+			cycDyn = true
 		}
 	}
 	for _, c := range p.cfgs {
@@ -643,6 +646,11 @@ func compare(r *core.Run, p *prepared, res *nodeResult, st *stats) {
 				// the graph has a name that is ambiguous only through a CommonJS export-star
 				// source and the first disagreement is an object with additional keys in the bundle
 				key["star_cjs_ambiguity"] = true
+			}
+			if cycDyn && firstDiffExtraKeys(o.Trace, nat.Trace) {
+				// an ES module with a run-time export set is in an import cycle and the first
+				// disagreement is an object that lacks keys in the bundle (looked at too early)
+				key["dyn_exports_in_cycle"] = true
 			}
 			r.Violation(key, what, replay(what, o))
 			continue
